@@ -381,9 +381,15 @@ def run(ctx):
     grid4 = list(itertools.product(range(4), repeat=3))
     enum1 = [tuple(np.array(p) - 1.5) for p in grid4]
     enum2 = [tuple(np.array(grid4[(i * 37) % 64]) * np.array([1.0, 0.5, 2.0]) - 1.0) for i in range(64)]
-    for n in range(5, 51):
+    for n in range(5, 65):
         sets.append(("prefix1", tuple(enum1[:n]), idx)); idx += 1
         sets.append(("prefix2", tuple(enum2[:n]), idx)); idx += 1
+    # every point count of an interval beyond that (a blocked accumulation that mishandles some remainder has nowhere to hide
+    # below the bound): prefixes of a scrambled 6^3 enumeration
+    grid6 = list(itertools.product(range(6), repeat=3))
+    enum3 = [tuple(np.array(grid6[(i * 91 + 17) % 216]) * np.array([1.0, 0.75, 1.5]) - 2.0) for i in range(216)]
+    for n in range(65, 217 if ctx.thorough else 137):
+        sets.append(("prefix3", tuple(enum3[:n]), idx)); idx += 1
     # conditioning: thin rods (thickness / length 1e-2 .. 1e-6: nearly collinear, yet the rotation about the long axis is determined) and
     # small sets far from the origin the rotation is taken about (3e2 .. 1e5: all points nearly parallel as seen from there)
     kk = np.arange(10.0)
@@ -396,10 +402,10 @@ def run(ctx):
         # quick: all triples, every 3rd quadruple, all larger sets
         sets = [s for s in sets if s[0] != "lattice4" or s[2] % 3 == 0]
     ctx.bounds = {"point_sets": len(sets), "transformations": 31, "tolerance": TOL}
-    ctx.rule = ("all C(27,3)=2925 triples%s of the lattice {-1,0,1}^3 + prefixes n=5..50 of two 4^3 enumerations; x 28 relating rotations x "
+    ctx.rule = ("all C(27,3)=2925 triples%s of the lattice {-1,0,1}^3 + prefixes of EVERY length n=5..64 of two 4^3 enumerations and n=65..%d of a 6^3 enumeration; x 28 relating rotations x "
                 "{no reflection, reflection} x 3 noise patterns (full product for every 10th set, otherwise within one deviation of the default); "
                 "Dimer.transform_ab for 2 molecules x 28 rotations; distinct = point sets"
-                % (" and all C(27,4)=17550 quadruples" if ctx.thorough else " and every third of the 17550 quadruples"))
+                % (" and all C(27,4)=17550 quadruples" if ctx.thorough else " and every third of the 17550 quadruples", 216 if ctx.thorough else 136))
     ctx.assumptions = ["the routine rotates about the origin (no centring), so the optimum is taken over rotations about the origin",
                        "reference optimum by Horn's quaternion eigenvalue method, tolerance 1e-8 on the RMSD"]
     ctx.pmap(worker, chunked(sets, max(1, len(sets) // 128)), seed=ctx.seed)
